@@ -253,6 +253,7 @@ func Socket(domain, typ, proto int) (int, error) {
 	f.sotype = typ &^ (unix.SOCK_NONBLOCK | unix.SOCK_CLOEXEC)
 	f.nonblk = typ&unix.SOCK_NONBLOCK != 0
 	fd := k.install(f, OwnFramework)
+	k.fds[fd].origin = "socket"
 	k.use("socket", fd, "0")
 	return fd, nil
 }
@@ -393,6 +394,7 @@ func Accept4(fd int, flags int) (int, unix.Sockaddr, error) {
 		s.sndCap = v
 	}
 	nfd := k.install(nf, OwnFramework)
+	k.fds[nfd].origin = "accept"
 	k.use("accept", fd, fmt.Sprintf("fd=%d", nfd))
 	k.Stats["accepted"]++
 	k.AcceptLog = append(k.AcceptLog, s.ID)
@@ -416,6 +418,7 @@ func EpollCreate1(flag int) (int, error) {
 	f := k.newFile(kEpoll, OwnFramework)
 	f.ep = &Epoll{file: f}
 	fd := k.install(f, OwnFramework)
+	k.fds[fd].origin = "epoll_create"
 	k.use("epoll_create1", fd, "0")
 	return fd, nil
 }
@@ -431,6 +434,7 @@ func Eventfd(initval uint, flags int) (int, error) {
 	f := k.newFile(kEventfd, OwnFramework)
 	f.efd = &eventfdObj{file: f, counter: uint64(initval) + k.EfdStart}
 	fd := k.install(f, OwnFramework)
+	k.fds[fd].origin = "eventfd"
 	k.use("eventfd", fd, "0")
 	return fd, nil
 }
@@ -673,6 +677,7 @@ func (k *Kernel) dup(call string, fd int) (int, Errno) {
 		return -1, fe
 	}
 	nfd := k.install(e.file, OwnFramework)
+	k.fds[nfd].origin = "dup"
 	k.use(call, fd, fmt.Sprintf("fd=%d", nfd))
 	k.Stats["dup"]++
 	return nfd, 0
